@@ -134,7 +134,7 @@ def write_evidence(prop, tier, seed, level, coverage, assumptions, wall, nviol):
 
 
 COMMON_ASSUMPTIONS = [
-    'hszinc imported from the working tree of /repo under /venv/bin/python 3.12, default BasicQuantity (Pint mode, hszinc.use_pint, is explored only where a check says so under coverage.bounds: C20, C19, C12)',
+    'hszinc imported from the working tree of /repo under /venv/bin/python 3.12, default BasicQuantity (Pint mode, hszinc.use_pint, is explored only where a check says so under coverage.bounds: C20 and C12)',
     'statement holds only inside the bounds listed under coverage.bounds; nothing outside the alphabets is claimed',
     'reference models under /verif/ref share no code with hszinc and are self-tested at start-up',
 ]
